@@ -112,6 +112,12 @@ def run_case(case, seed):
                 last = (idx, e, a[idx])
         if bad:
             r.fail(K('element', 'value'), '%d wrong elements, e.g. %s' % (bad, last))
+        # entries of tiny magnitude (complex trains scaled by 1e-18) are complex numbers all the same
+        if np.iscomplexobj(a):
+            At = 1e-18 * A
+            idx = tuple(s_ - 1 for s_ in a.shape)
+            e = At.element([int(i) for i in idx])
+            r.true(K('element', 'tiny-scale'), abs(e - 1e-18 * a[idx]) <= TOL * 1e-18 * max(1.0, abs(a[idx])), 'entry of 1e-18*T: %r, expected %r' % (e, 1e-18 * a[idx]))
         # NumPy integers are documented index types
         for npt in (np.int64, np.int32):
             for idx in (tuple(s - 1 for s in a.shape), tuple(0 for s in a.shape)):
@@ -128,9 +134,13 @@ def run_case(case, seed):
     # scalar multiples
     for s in SCALARS:
         with r.op(K('mul', 'call')):
-            chk_tt('mul', A * s, a * s, rA)
+            Pm = A * s
+            chk_tt('mul', Pm, a * s, rA)
+            r.true(K('mul', 'new-object'), Pm is not A and all(x_ is not y_ for x_, y_ in zip(Pm.cores, A.cores)), 'T * %r is the operand itself (or shares its core objects)' % (s,))
         with r.op(K('rmul', 'call')):
-            chk_tt('rmul', s * A, a * s, rA)
+            Pm = s * A
+            chk_tt('rmul', Pm, a * s, rA)
+            r.true(K('rmul', 'new-object'), Pm is not A, '%r * T is the operand itself' % (s,))
     # transpose family
     for S in subsets(d):
         want = a
